@@ -165,11 +165,13 @@ def gen_cut(rng, knobs=None):
     prog = [['start'], ['pump']]
     n = rng.randint(0, 4)
     kinds = []
+    inits = []
     for i in range(n):
         kind = rng.choice(['rr', 'rr', 'stream', 'stream', 'channel', 'fnf'])
         ep = rng.choice(['c', 's'])
         sp = spec(rng)
         kinds.append(kind)
+        inits.append(ep)
         if kind == 'rr':
             prog.append(['rr', ep, sp, {'mode': rng.choice(['later', 'later', 'immediate']), 'resp': spec(rng),
                                         'suspend': rng.choice([0, 0, 0.05])}])
@@ -194,23 +196,62 @@ def gen_cut(rng, knobs=None):
         r = rng.random()
         if ref is not None and kinds[ref] in ('stream', 'channel') and r < 0.4:
             sp = spec(rng)
-            prog.append(['emit', ref, rng.choice(['resp', 'req']), sp[0], sp[1], 0])
+            t = rng.random()
+            role = rng.choice(['resp', 'req'])
+            if t < 0.7:
+                # (an element flagged complete / a completion / an error may be the last thing in flight when the link is cut)
+                prog.append(['emit', ref, role, sp[0], sp[1], 1 if rng.random() < 0.25 else 0])
+            elif t < 0.87:
+                prog.append(['complete', ref, role])
+            else:
+                prog.append(['error', ref, role])
         elif ref is not None and kinds[ref] in ('stream', 'channel') and r < 0.55:
             prog.append(['request_n', ref, rng.choice(['req', 'resp']), rng.choice([1, 3])])
         elif ref is not None and kinds[ref] == 'rr' and r < 0.5:
             prog.append(['respond', ref, spec(rng)])
         elif r < 0.8:
             prog.append(['deliver', rng.choice(['c', 's']), rng.choice([1, 3, 9, 20, 64, None])])
+        elif r < 0.9:
+            prog.append(['settle'])     # frames are written but stay on the link
         else:
             prog.append(['pump'])
+    if rng.random() < 0.5:
+        prog.append(['settle'])
     # the fault
     how = rng.choice(k.get('faults', ['eof', 'eof', 'error', 'close', 'close']))
     src = rng.choice(['c', 's'])
+    cands = [i for i in range(n) if kinds[i] in ('rr', 'stream', 'channel')]
+    if cands and how in ('eof', 'error') and rng.random() < k.get('p_terminal_race', 0.35):
+        # the responder's terminal frame is the last thing its peer reads before the connection is lost: the terminal signal
+        # and the loss are handled in the same receiver step
+        ref = rng.choice(cands)
+        resp_ep = 's' if inits[ref] == 'c' else 'c'
+        prog.append(['pump'])
+        if kinds[ref] == 'rr':
+            prog.append(['respond', ref, spec(rng)] if rng.random() < 0.8 else ['respond_error', ref])
+        else:
+            t = rng.random()
+            sp = spec(rng)
+            if t < 0.4:
+                prog.append(['emit', ref, 'resp', sp[0], sp[1], 1])
+            elif t < 0.8:
+                prog.append(['complete', ref, 'resp'])
+            else:
+                prog.append(['error', ref, 'resp'])
+        prog.append(['settle'])
+        prog.append(['deliver_nosettle', resp_ep, None])
+        prog.append(['cut', resp_ep, how])
+        prog.append(['settle'])
+        prog.append(['advance', 450])
+        prog.append(['settle'])
+        prog.append(['snapshot', 'final'])
+        return opts, prog
     if how in ('eof', 'error'):
         # deliver a random number of bytes of each direction first, so that the cut lands anywhere (mid frame included)
-        prog.append(['deliver_nosettle', 'c', rng.choice([1, 2, 4, 7, 13, 30, 71, 200])])
-        prog.append(['deliver_nosettle', 's', rng.choice([1, 2, 4, 7, 13, 30, 71, 200])])
-        if rng.random() < 0.5:
+        # (None = everything in flight: the cut then follows the last frame - e.g. a terminal one - in the same read)
+        prog.append(['deliver_nosettle', 'c', rng.choice([1, 2, 4, 7, 13, 30, 71, 200, None, None, None])])
+        prog.append(['deliver_nosettle', 's', rng.choice([1, 2, 4, 7, 13, 30, 71, 200, None, None, None])])
+        if rng.random() < 0.4:
             prog.append(['settle'])
         prog.append(['cut', src, how])
     else:
